@@ -417,13 +417,15 @@ def make_unit(iset, cube_name, cube_pred, memarch='PMSA', nregions=1, props=('C1
             base = Cpu(dict(init), 'arm' if iset == 'arm' else 'thumb', instr, oplen)
             base.st['mem'] = mem.init
             base.st['oracle.excl_pass'] = False
-            claims = []
+            claims = {}
             for r, mt in live_rows(iset, instr):
                 unp, und = row_unpred_undef(r, instr, base)
-                claims.append((r.cls, lnot(land(mt, lnot(unp), lnot(und)))))
-            if claims:
-                ob = eng.oblige_all('decode.total', 'undefined: the word is no valid (predictable, defined) encoding of the table', claims)
-                ob.props = [dprop]
+                # grouped by the functional family of the row: rejecting a valid encoding of a family also breaks that family's
+                # property (the instruction does not have its architectural effect)
+                claims.setdefault(tuple(fams(r, None)) if r.family else (), []).append((r.cls, lnot(land(mt, lnot(unp), lnot(und)))))
+            for fs, cl in sorted(claims.items()):
+                ob = eng.oblige_all('decode.total', 'undefined: the word is no valid (predictable, defined) encoding of the table', cl)
+                ob.props = [dprop] + list(fs)
         # ---- abort clause (C02/C14): a data abort raised by the instruction's own access leaves the registers as
         # they were (no data transferred, no base write-back) and enters the abort handler architecturally
         if rows and events == ['take_data_abort_exception'] and mem.fault_info is not None and not unpred_possible(unpred):
